@@ -94,7 +94,7 @@ func init() {
 	// exponents that do not fit an int (still RFC 8259 numbers, carried as literals)
 	numPool = append(numPool, "1e99999999999999999999", "0e7777777777777777777777", "-1.5E-99999999999999999999", "2e+000000000000000000001", "1E9223372036854775808")
 	keyPool = append(keyPool, odd...)
-	keyPool = append(keyPool, "line\nfeed", "cr\rlf", "\b\f")
+	keyPool = append(keyPool, "line\nfeed", "cr\rlf", "\b\f", "\x01f", "\x0e", "a\x00b", "\x0b\x07")
 	strPool = append(strPool, "line\nfeed", "cr\rlf\n", "\b\f\v")
 	// decimal digits that are not ASCII (Arabic-Indic, fullwidth, Devanagari): member names, never indices
 	keyPool = append(keyPool, "\xd9\xa3", "\xef\xbc\x91\xef\xbc\x92", "\xe0\xa5\xa7\xe0\xa5\xa8")
